@@ -27,16 +27,27 @@ a key the user's file sets must read back as the user's value whenever the
 stored `_read_user` switch is on; after a reset the store file itself must hold
 every documented default; no operation on serialisable values may raise; every
 later process must start.  Keys the user's file sets are exempt while
-overrides are off (the statement exempts them; the leak is counted and noted)."""
+overrides are off (the statement exempts them; the leak is counted and noted).
+
+CLI stage (harness/cli_cases.py, called at the end of run): histories of the
+real commands `simulaqron set <key> <value>` (every settable key; documented,
+ill-typed and borderline values), `get`, `set default`, `reset`, malformed
+command lines, with and without user file / old store; one fresh interpreter
+per command and a fresh reader after it; judged by the same Oracle (a rejected
+command must leave the store untouched, `get` must print what a fresh process
+reads, every later command must still start) and compared with the same
+driver (a CLI process is `restart` + the operation)."""
 import concurrent.futures as cf
 import itertools
 import json
 import os
 import shutil
 import subprocess
+import sys
 import tempfile
 
 from .. import core
+from .. import cli_cases as cli    # CLI stage: the click commands `simulaqron set / get / reset`, one process per command
 from ..gen import defaults as gendef
 
 LEAN_TARGETS = ["SqVerif.Props.C18"]
@@ -53,6 +64,10 @@ TRUSTED = [
     "a value is represented by its canonical JSON text; Python truthiness of `_read_user` is modelled on that text",
     "mode patched: redirecting the two file paths by attributes does not change the behaviour of Config "
     "(cross-checked by mode e2e, which patches nothing)",
+    "CLI stage (harness/cli_cases.py): every `simulaqron set/get/reset` command is a fresh interpreter on the console entry "
+    "point in a private installation directory + HOME; the package `daemons` (not installed here) is a recording stand-in "
+    "(harness/cli_shims); the table of documented value types per key (cli_cases.SETTABLE) and the translation command -> "
+    "model operation (process = restart, set default / reset = reset) are hand-written there",
 ]
 ASSUMPTIONS = [
     "one writer at a time: a settings object, or a succession of processes each taking over from the previous one, "
@@ -712,6 +727,11 @@ def run(ctx):
                 "every step; plus unpatched e2e histories and reader-first cases; non-trivial = >= 2 operations with a "
                 "successful set; distinct by the whole case")
 
+    # ---- CLI stage, replay of one of its histories ------------------------------------------------------------------
+    if ctx.replay and ctx.replay["input"].get("cli") == "c18":
+        cli.stage_c18(ctx, res, sys.modules[__name__], env, replay_case=ctx.replay["input"])
+        return res
+    # ----------------------------------------------------------------------------------------------------------------
     if ctx.replay:
         cases = [ctx.replay["input"]]
     else:
@@ -775,6 +795,10 @@ def run(ctx):
                 res.tie_break("Settings model vs settings.Config", cases[ci], g, w)
             elif g != w:
                 res.tie_breaks.append({"what": "more", "input": None, "model": "", "impl": ""})
+    # ---- CLI stage (harness/cli_cases.py): the same oracle and the same model driver behind the real commands ------
+    if not ctx.replay:
+        cli.stage_c18(ctx, res, sys.modules[__name__], env)
+    # ----------------------------------------------------------------------------------------------------------------
     shutil.rmtree(env.root, ignore_errors=True)
     return res
 
